@@ -10,6 +10,7 @@ import (
 	"errors"
 	"fmt"
 	"sync"
+	"time"
 
 	"github.com/samsarahq/thunder/graphql"
 	"github.com/samsarahq/thunder/graphql/schemabuilder"
@@ -93,6 +94,15 @@ func (w *World) read(ctx context.Context, field string) error {
 	}
 	if fs.N > 0 {
 		switch fs.Mode {
+		case "block":
+			// an in-flight computation: holds until its context is cancelled (Stop, connection context)
+			w.rec.add(Event{Kind: "blocked", Field: field})
+			select {
+			case <-ctx.Done():
+				return ctx.Err()
+			case <-time.After(1500 * time.Millisecond):
+				return errors.New("blocked resolver gave up in " + field)
+			}
 		case "safe":
 			return graphql.NewSafeError("safe failure in %s", field)
 		case "panic":
